@@ -4,6 +4,7 @@ import (
 	"fmt"
 	"go/ast"
 	"go/token"
+	"golang.org/x/tools/go/ssa"
 	"regexp"
 	"strings"
 
@@ -94,7 +95,8 @@ func r16Handle(c *an.Ctx) string {
 		}
 		isWild := false
 		for k, v := range env {
-			if strings.HasPrefix(k, "(len((*regexp.Regexp).FindStringSubmatch(http.wildPath, p2)) > 0)") && v {
+			// canonical form of len(x) > 0 is !(len(x) == 0)
+			if strings.HasPrefix(k, "(len((*regexp.Regexp).FindStringSubmatch(http.wildPath, p2)) == 0)") && !v {
 				isWild = true
 			}
 		}
@@ -331,11 +333,33 @@ func r16NotFound(c *an.Ctx) {
 		return
 	}
 	fn := c.SSAFunc(f)
-	if fn == nil || len(fn.AnonFuncs) == 0 {
-		c.Failf(rule, f.Name+"$notfound", f.Decl.Pos(), "not-found closure not found")
+	// the handler given to the router's NotFound: a function literal, a named function or a local
+	var nf *ssa.Function
+	if fn != nil {
+		for _, b := range fn.Blocks {
+			for _, in := range b.Instrs {
+				call, ok := in.(ssa.CallInstruction)
+				if !ok {
+					continue
+				}
+				cc := call.Common()
+				name := ""
+				if cc.IsInvoke() {
+					name = cc.Method.Name()
+				} else if sc := cc.StaticCallee(); sc != nil {
+					name = sc.Name()
+				}
+				if name != "NotFound" || len(cc.Args) == 0 {
+					continue
+				}
+				nf = an.FuncValueOf(cc.Args[len(cc.Args)-1])
+			}
+		}
+	}
+	if nf == nil {
+		c.Failf(rule, f.Name+"$notfound", f.Decl.Pos(), "no function handed to the router's NotFound in Handle")
 		return
 	}
-	nf := fn.AnonFuncs[0]
 	t := an.BuildPathTable(nf, an.PathOpts{})
 	c.Stats["paths_enumerated"] += len(t.Paths)
 	var probs []string
